@@ -90,6 +90,10 @@ def case_package(case_seed: int, idx: int, corpus_every: int = 0) -> dict:
     if corpus_every and idx % corpus_every == corpus_every - 1:
         name = workload.CORPUS[(idx // corpus_every + case_seed) % len(workload.CORPUS)]
         return workload.corpus_package(name, runner.repo_dir())
+    if idx % 13 == 7:
+        from . import shapes
+
+        return shapes.shape_package(idx // 13 + case_seed)
     if idx % 11 == 5:
         return workload.two_package_container(H(case_seed, "pkg") % (2**40))
     return workload.generate_package(H(case_seed, "pkg"))
